@@ -107,6 +107,21 @@ impl<T: ClusterKey> Behaviour<T> {
         self.send_ownership_message(request);
     }
 
+    /// Delivers a published message as if gossipsub had received it (simulated bus).
+    #[cfg(feature = "verif")]
+    pub fn verif_deliver(&mut self, source: PeerId, topic: &str, data: &[u8]) {
+        self.handle_gossipsub_event(&gossipsub::Event::Message {
+            propagation_source: source,
+            message_id: gossipsub::MessageId::new(b"verif"),
+            message: gossipsub::Message {
+                source: Some(source),
+                data: data.to_vec(),
+                sequence_number: None,
+                topic: gossipsub::TopicHash::from_raw(topic),
+            },
+        });
+    }
+
     fn handle_gossipsub_event(&mut self, event: &gossipsub::Event) {
         if let gossipsub::Event::Message { message, .. } = event {
             match message.topic.as_str() {
@@ -303,6 +318,8 @@ impl<T: ClusterKey> Behaviour<T> {
             bincode::config::standard(),
         ) {
             Ok(encoded) => {
+                #[cfg(feature = "verif")]
+                crate::verif::published(OWNERSHIP_TOPIC, &encoded);
                 if let Err(err) = self.gossipsub.publish(self.ownership_topic.hash(), encoded)
                     && !matches!(err, PublishError::NoPeersSubscribedToTopic)
                 {
@@ -324,6 +341,8 @@ impl<T: ClusterKey> Behaviour<T> {
             self.manager.assigned_partitions.len()
         );
 
+        #[cfg(feature = "verif")]
+        crate::verif::published(HEARTBEAT_TOPIC, &self.heartbeat_bytes);
         if let Err(err) = self
             .gossipsub
             .publish(self.heartbeat_topic.hash(), self.heartbeat_bytes.clone())
